@@ -65,6 +65,32 @@ def det_schema(draw) -> M.Schema:
 
 
 @st.composite
+def variant(draw, s: M.Schema) -> M.Schema:
+    """Same declaration names as `s`, different contents (enum sizes, field order/ids): what an edited copy of a
+    schema, or another project reusing the same names, looks like to state that survives inside the process."""
+    import copy
+
+    v = copy.deepcopy(s)
+    for e in v.enums:
+        k = draw(st.integers(0, 2))
+        top = max(val for _n, val in e.items)
+        if k == 0:
+            e.items.append((e.name + "Big", min(255, top * 4 + 3)))
+        elif k == 1 and len(e.items) > 1:
+            e.items = e.items[:1]
+        else:
+            e.items = [(n, (val + 1) % 256) for n, val in e.items]
+        seen = set()
+        e.items = [(n, val) for n, val in e.items if not (val in seen or seen.add(val))]
+    for st_ in v.structs:
+        if len(st_.fields) >= 2 and draw(st.booleans()):
+            st_.fields = list(reversed(st_.fields))
+        if draw(st.booleans()):
+            st_.fields = st_.fields[:1]
+    return v
+
+
+@st.composite
 def batch(draw):
     cases = []
     for _ in range(3):
@@ -76,9 +102,11 @@ def batch(draw):
             if k == 0:
                 pre.append({"op": "parse", "text": draw(st.sampled_from(BROKEN))})
             elif k == 1:
-                pre.append({"op": "parse", "text": printer.to_text(draw(det_schema()))})
+                other = draw(variant(s)) if draw(st.booleans()) else draw(det_schema())
+                pre.append({"op": "parse", "text": printer.to_text(other)})
             else:
-                pre.append({"op": "generate", "gen": draw(st.sampled_from(GENERATORS)), "text": printer.to_text(draw(det_schema()))})
+                other = draw(variant(s)) if draw(st.booleans()) else draw(det_schema())
+                pre.append({"op": "generate", "gen": draw(st.sampled_from(GENERATORS)), "text": printer.to_text(other)})
         cases.append((s, gen, pre))
     seed2 = draw(st.sampled_from([1, 1, 2, 12345]) | st.integers(1, 2**32 - 1))
     seed3 = draw(st.sampled_from([0, 1, 7]) | st.integers(0, 2**32 - 1))
